@@ -70,33 +70,39 @@ def rawTag : Str → Str → Option (Str × Str)
     | some r => some (acc.reverse, r)
     | none => if c == '\n' then none else rawTag t (c :: acc)
 
+/-- group 1 of `_etag_re`: the optional `[Ww]/` -/
+def weakPrefix : Str → Bool × Str
+  | 'W' :: '/' :: t => (true, t)
+  | 'w' :: '/' :: t => (true, t)
+  | s => (false, s)
+
+/-- group 2 of `_etag_re`: the alternative `"(.*?)"` (tried first) -/
+def quotedAt : Str → Option (Str × Str)
+  | '"' :: t => quotedTag t []
+  | _ => none
+
+/-- one `_etag_re.match(value, pos)` and the branch on its groups: `(tag, is the wildcard, rest)`.
+The wildcard test `raw == "*"` looks at group 3 only, so a *quoted* `"*"` is an ordinary tag
+(`elif quoted is not None`, a63ec67). -/
+def etagMatch (body : Str) : Option (Option Str × Bool × Str) :=
+  match quotedAt body with
+  | some (tag, rest) => some (some tag, false, rest)
+  | none =>
+    match rawTag body [] with
+    | some (tag, rest) => some (some tag, tag == ['*'], rest)
+    | none => none
+
 /-- the `while pos < end` loop of `parse_etags` -/
 def parseEtagsLoop : Nat → Str → List (Option Str) → List (Option Str) → ETags
   | 0, _, st, wk => ⟨st.reverse, wk.reverse, false⟩
   | fuel + 1, s, st, wk =>
     if s.isEmpty then ⟨st.reverse, wk.reverse, false⟩
     else
-      let (isWeak, body) : Bool × Str :=
-        match s with
-        | 'W' :: '/' :: t => (true, t)
-        | 'w' :: '/' :: t => (true, t)
-        | _ => (false, s)
-      let quoted : Option (Str × Str) :=
-        match body with
-        | '"' :: t => quotedTag t []
-        | _ => none
-      let m : Option (Option Str × Bool × Str) :=
-        match quoted with
-        | some (tag, rest) => some (some tag, false, rest)   -- `elif quoted is not None` (a63ec67)
-        | none =>
-          match rawTag body [] with
-          | some (tag, rest) => some (some tag, tag == ['*'], rest)
-          | none => none
-      match m with
+      match etagMatch (weakPrefix s).2 with
       | none => ⟨st.reverse, wk.reverse, false⟩
       | some (raw, isStar, rest) =>
         if isStar then ⟨[], [], true⟩
-        else if isWeak then parseEtagsLoop fuel rest st (raw :: wk)
+        else if (weakPrefix s).1 then parseEtagsLoop fuel rest st (raw :: wk)
         else parseEtagsLoop fuel rest (raw :: st) wk
 
 /-- `parse_etags(value)` (header text without line feeds) -/
@@ -434,6 +440,122 @@ def respond (method : Str) (q : CondReq) (r : RespIn) (completeLength : Option I
       let isGetHead := method == ['G', 'E', 'T'] || isHead
       some ⟨st, none, if kind == 0 || (kind == 1 && isGetHead) then some total else none,
         if isHead then [] else chunks.filter (!·.isEmpty), false⟩
+
+/-! ## the argument forms of `make_conditional` -/
+
+/-- the `accept_ranges` argument: `False`, `True`, or a unit string (`'bytes'`, `'none'`, …) -/
+inductive AcceptArg where
+  | no
+  | yes
+  | unit (u : Str)
+deriving Repr, DecidableEq
+
+/-- `not accept_ranges` decides whether range handling is attempted: an empty string is falsy -/
+def AcceptArg.truthy : AcceptArg → Bool
+  | .no => false
+  | .yes => true
+  | .unit u => !u.isEmpty
+
+/-- the `Accept-Ranges` header value written on success (`True` becomes `"bytes"`) -/
+def AcceptArg.header : AcceptArg → Str
+  | .unit u => u
+  | _ => bytesUnit
+
+/-- `Response(body).make_conditional(request_or_environ, accept_ranges, complete_length)` followed
+by `get_wsgi_response`: the answer of `respond` plus the `Accept-Ranges` header value. The unit
+named by a string argument is only *advertised*: the `Range` header is still read as byte ranges
+(`range_for_length` insists on `bytes`). `request_or_environ` may be the environ or a `Request`
+(`_get_environ` takes `.environ`): same function of the header texts. -/
+def makeConditionalFull (method : Str) (q : CondReq) (r : RespIn) (completeLength : Option Int)
+    (accept : AcceptArg) (chunks : List Bytes) (seekable : Option Nat) (kind : Nat) :
+    Option (WsgiOut × Option Str) :=
+  (respond method q r completeLength accept.truthy chunks seekable kind).map fun o =>
+    (o, if o.acceptRanges then some accept.header else none)
+
+/-! ## `utils.send_file` (the conditional glue) -/
+
+/-- the `etag` argument of `send_file`: `True` (generate from the file), `False`, or a string -/
+inductive EtagArg where
+  | auto
+  | off
+  | given (s : Str)
+deriving Repr, DecidableEq
+
+/-- what `send_file` learns about the file and its arguments as far as validators and conditional
+handling are concerned -/
+structure SendFile where
+  /-- a path was given (`os.stat`: size and mtime known); else a file object -/
+  isPath : Bool
+  /-- `stat.st_size`, or `BytesIO.getbuffer().nbytes`; `none` for any other file object -/
+  size : Option Nat
+  /-- `stat.st_mtime` as (whole seconds, microseconds); paths only -/
+  mtime : Option (Int × Nat) := none
+  /-- `repr(mtime)` as `f"{mtime}"` prints it, `adler32(path.encode()) & 0xFFFFFFFF` (opaque) -/
+  mtimeRepr : Str := []
+  check : Nat := 0
+  etag : EtagArg := .auto
+  /-- the `last_modified` argument as an instant (whole seconds: `http_date` drops the rest) -/
+  lastModified : Option Int := none
+  conditional : Bool := true
+
+def natRepr (n : Nat) : Str := (toString n).toList
+
+/-- the text of the generated entity tag: `f"{mtime}-{size}-{check}"` -/
+def SendFile.autoTag (a : SendFile) : Str :=
+  a.mtimeRepr ++ '-' :: natRepr (a.size.getD 0) ++ '-' :: natRepr a.check
+
+/-- the `ETag` header `send_file` sets; `.error` = `quote_etag` raises ValueError (a `"` in a given
+tag) -/
+def SendFile.etagHeader (a : SendFile) : Except String (Option Str) :=
+  match a.etag with
+  | .given s => if s.contains '"' then .error "ValueError" else .ok (some ('"' :: s ++ ['"']))
+  | .auto => if a.isPath then .ok (some ('"' :: a.autoTag ++ ['"'])) else .ok none
+  | .off => .ok none
+
+/-- the `Last-Modified` instant: the argument, else the file's mtime floored to whole seconds -/
+def SendFile.lastMod (a : SendFile) : Option Int :=
+  match a.lastModified with
+  | some t => some t
+  | none => a.mtime.map (·.1)
+
+/-- `complete_length=size` -/
+def SendFile.clen (a : SendFile) : Option Int := a.size.map Int.ofNat
+
+/-- `wrap_file(environ, file)` with the default `buffer_size` -/
+def fileBufferSize : Nat := 8192
+
+/-- `send_file(path_or_file, environ, etag=…, last_modified=…, conditional=…)` followed by
+`get_wsgi_response`, for a file holding `data`: a `direct_passthrough` response over a
+`FileWrapper` (`seekable` says whether the file object can seek), validators as above,
+`make_conditional(environ, accept_ranges=True, complete_length=size)` when `conditional`.
+`.error "ValueError"`: invalid given etag; `.ok none`: 416. -/
+def sendFile (a : SendFile) (method : Str) (q : CondReq) (data : Bytes) (seekable : Bool) :
+    Except String (Option WsgiOut) :=
+  match a.etagHeader with
+  | .error e => .error e
+  | .ok et =>
+    let r : RespIn := { etag := et, lastModified := a.lastMod }
+    let chunks := blocks fileBufferSize (data.length + 1) data
+    let cl : Option Int := a.clen
+    if a.conditional then
+      -- `rv.content_length = size` was set before `make_conditional`: a 200 / 412 keeps it
+      .ok ((respond method q r cl true chunks (if seekable then some fileBufferSize else none) 2).map
+        fun o => if o.status == 200 || o.status == 412 then { o with contentLength := cl } else o)
+    else
+      .ok (some ⟨200, none, cl, if method == ['H', 'E', 'A', 'D'] then [] else chunks, false⟩)
+
+/-- the `Cache-Control` header `send_file` sets: `no-cache` unless a positive `max_age` makes the
+response `public`; a `max_age` (also zero or negative) is always written. `max_age` may be a
+callable of the path: its result is used (the harness passes the value). -/
+def sendFileCacheControl (maxAge : Option Int) : Str :=
+  match maxAge with
+  | none => "no-cache".toList
+  | some n =>
+    if n > 0 then "public, max-age=".toList ++ (toString n).toList
+    else "no-cache, max-age=".toList ++ (toString n).toList
+
+/-- `Expires` is written exactly when a `max_age` is given: `int(time() + max_age)` -/
+def sendFileExpires (maxAge : Option Int) (now : Int) : Option Int := maxAge.map (now + ·)
 
 /-! ## date headers as text (IMF-fixdate, C06's model) -/
 
